@@ -33,7 +33,7 @@ ASSUMPTIONS = [
     "lists with repeated labels are only combined with scalar right-hand sides (NumPy leaves the winner unspecified otherwise)",
     "cast=False is exercised only where NumPy assignment is loss-free (same kind, int into float)",
 ]
-MANDATORY = ["rhs:scalar", "rhs:full", "rhs:bcast", "spelling:put-copy", "idx:mask", "idx:list", "idx:slice", "idx:scalar",
+MANDATORY = ["idx:slice-bounding-box", "idx:slice-bounding-box-on-one-label", "rhs:scalar", "rhs:full", "rhs:bcast", "spelling:put-copy", "idx:mask", "idx:list", "idx:slice", "idx:scalar",
              "nd-mask", "cast:kind-changing", "partial-write", "absent->IndexError", "position"]
 
 
@@ -80,6 +80,12 @@ def assign_desc(draw, labs, array_rhs):
     b0 = draw(st.sampled_from([None] + list(labs)))
     b1 = draw(st.sampled_from([None] + list(labs)))
     step = draw(st.sampled_from([None, None, 1, 2, -1]))
+    if kind in "if" and any(im.monotonic(list(labs))) and draw(st.integers(0, 2)) == 0:
+        # a sorted numeric axis (also one of length 1): bounds that are not labels delimit a bounding box
+        b0, b1 = [b if b is None or draw(st.booleans()) else gen.absent_label(labs, kind, draw(st.sampled_from(["below", "between", "above"]))) for b in (b0, b1)]
+        if b0 is not None and b1 is not None and draw(st.booleans()):
+            b0, b1 = (min(b0, b1), max(b0, b1)) if (im.monotonic(list(labs))[0] != (step is not None and step < 0)) else (max(b0, b1), min(b0, b1))
+        return {"k": "slice", "v": [b0, b1, step], "box": True}
     return {"k": "slice", "v": [b0, b1, step]}
 
 
@@ -151,6 +157,20 @@ def enumerate_cases(tier):
                                                               "lidx": [{"k": "mask", "v": list(m0), "as": as_}, {"k": "mask", "v": list(m1), "as": as_}],
                                                               "pidx": [{"k": "pmask", "v": list(m0)}, {"k": "pmask", "v": list(m1)}],
                                                               "rhs": {"rk": "f", "shape": "scalar", "base": 1, "bdim": 0}, "cast": False}
+    # label slices on short sorted numeric axes (a single label has no direction): bounds on / below / between / above the labels
+    k = 0
+    for labs in ([2000], [0], [0.5], [10, 20], [20, 10], [1, 2, 3]):
+        srt = sorted(labs)
+        cands = [None] + list(labs) + [srt[0] - 1, srt[-1] + 1] + [(a + b) / 2.0 for a, b in zip(srt, srt[1:])]
+        for b0 in cands:
+            for b1 in cands:
+                for step in (None, -1):
+                    k += 1
+                    first = k % 2 == 0
+                    other = [7, 5, 6]
+                    yield "label-slices-on-short-sorted-axes", {"mode": "assign", "spec": {"dims": ["x", "y"], "labels": [labs, other] if first else [other, labs], "vk": "f", "base": 0},
+                                                                "lidx": [{"k": "slice", "v": [b0, b1, step], "box": True}, {"k": "full"}][::1 if first else -1],
+                                                                "pidx": [{"k": "full"}, {"k": "full"}], "rhs": {"rk": "f", "shape": "scalar", "base": 1, "bdim": 0}, "cast": False}
     for vk in "bifs":
         for rk, val in ASSIGNED:
             for form in ("cell", "list", "mask", "ndmask", "values"):
@@ -326,6 +346,8 @@ def run_assign(case):
                 cl.add("partial-write")
             for d in descs:
                 cl.add("idx:" + d["k"].lstrip("p") if d["k"] != "full" else "idx:full")
+                if d.get("box"):
+                    cl.add("idx:slice-bounding-box" + ("-on-one-label" if len(labels[descs.index(d)]) == 1 else ""))
     rk, vk = case["rhs"]["rk"], spec["vk"]
     cl.add("rhs:" + case["rhs"]["shape"])
     if cast and rk != vk:
